@@ -167,6 +167,9 @@ pub struct Recorder {
     pub events: Mutex<Vec<Ev>>,
     /// (key, id, via_flush)
     pub piped: Mutex<Vec<(u64, Id, bool)>>,
+    /// Everything ever offered to the pipe (never drained): the differential oracle for caches without a
+    /// listener compares it with the log of the same sequence on a cache with one.
+    pub pipe_log: Mutex<Vec<(u64, Id, bool)>>,
     pub flush_calls: AtomicUsize,
 }
 
@@ -214,11 +217,9 @@ impl Pipe for RecPipe {
     }
 
     fn send(&self, piece: Piece<DK, DV, CacheProperties>) {
-        self.rec
-            .piped
-            .lock()
-            .unwrap()
-            .push((piece.key().0, value_id(piece.value().0), false));
+        let item = (piece.key().0, value_id(piece.value().0), false);
+        self.rec.pipe_log.lock().unwrap().push(item);
+        self.rec.piped.lock().unwrap().push(item);
     }
 
     fn flush(
@@ -229,6 +230,7 @@ impl Pipe for RecPipe {
         let mut g = self.rec.piped.lock().unwrap();
         for p in pieces.iter() {
             g.push((p.key().0, value_id(p.value().0), true));
+            self.rec.pipe_log.lock().unwrap().push((p.key().0, value_id(p.value().0), true));
         }
         drop(g);
         drop(pieces);
@@ -1302,6 +1304,19 @@ impl Driver {
             k.push(u64::MAX);
         }
         k
+    }
+}
+
+impl Driver {
+    /// Drop every held handle, then the cache, without consulting the ledger (differential runs).
+    pub fn teardown(&mut self) -> Vec<Complaint> {
+        let mut out = vec![];
+        let slots = std::mem::take(&mut self.slots);
+        guard("dropping the held handles", &mut out, move || drop(slots));
+        let cache = self.cache.take();
+        guard("dropping the cache", &mut out, move || drop(cache));
+        tokio::sim::run_until_stalled(10_000);
+        out
     }
 }
 
